@@ -18,6 +18,12 @@ Inductive obs :=
 | OLevel (z : Z)                      (* GET /access: 30/20/10/0, or -1 for HTTP 500 *)
 | OBits (a n v : string) (leak : bool). (* GET /device: the three password attributes; a hash/password found anywhere *)
 
+(* kinds 5-7 (the slave side; c_k = number of forwarded PATCH /device requests that succeeded so far):
+   5  the Authorization header the hub sent to the slave with a forwarded request, and the slave's verdict on it (c_obs);
+      c_key = the slave's real current admin password (from the simulated slave)
+   6  POST /devices/<name>/events on the hub with the device-origin token c_hdr: c_obs = ORefuse for 401, OGrant None else
+   7  GET /devices and the intercepted GET /devices/<name>/forward/device: OBits shown_in_list shown_in_forward slave_bit leak;
+      c_plain = a password waits to be provisioned, c_key = that password *)
 (* kinds: 0 consumer header: parse_auth_header called directly (c_obs) and, when the header can travel unchanged over HTTP,
    GET /access with it (c_http); 2 device-origin parse_auth_header (require_usr=False, constant key c_key);
    3 GET /access without header (c_http); 4 GET /device (c_obs = OBits) *)
@@ -70,6 +76,15 @@ Section Run.
   Variable skew : Z.
   Variable sha : list (string * string).
   Variable ops : list op.
+  Variable spw0 : string.                  (* admin password of the slave when it was added to the hub *)
+  Variable sops : list (option string).    (* admin_password of every forwarded PATCH /device that succeeded (None: absent) *)
+
+  Definition slave_key (k : nat) : string := hub_slave_hash (sha_of sha) spw0 (firstn k sops).
+  Definition slave_pw (k : nat) : string := slave_password spw0 (firstn k sops).
+  Definition admin_only (h : string) (u : option jval) : option string := if jeq_str u "admin" then Some h else None.
+  Definition is_grant (r : res) : bool := match r with RGrant _ => true | _ => false end.
+  Definition obs_grant (o : obs) : bool := match o with OGrant _ => true | _ => false end.
+  Definition is_bit (s : string) : bool := (s =? "")%string || (s =? "set")%string.
 
   Definition state_at (k : nat) : state := run (sha_of sha) init_state (firstn k ops).
   Definition pstate_at (k : nat) : pstate := prun pinit (firstn k ops).
@@ -103,6 +118,16 @@ Section Run.
     | 4, OBits a n v _ =>
         (pw_bit (sha_of sha) st Admin =? a)%string && (pw_bit (sha_of sha) st Normal =? n)%string
         && (pw_bit (sha_of sha) st Viewonly =? v)%string
+    | 5, o =>
+        issuedb mac dec "consumer" (Some "admin") (slave_key (c_k c)) (issue_iat (c_now8 c)) (c_hdr c)
+        && res_obs_eqb (parse_auth_header mac dec skew (c_now8 c) (c_hdr c) "consumer"
+                                          (admin_only (sha_of sha (c_key c))) true) o
+    | 6, o =>
+        Bool.eqb (is_grant (parse_auth_header mac dec skew (c_now8 c) (c_hdr c) "device" (fun _ => Some (slave_key (c_k c))) false))
+                 (obs_grant o)
+    | 7, OBits a n v leak =>
+        let pending := if c_plain c then Some (c_key c) else None in
+        negb leak && (a =? slave_doc_pw pending v)%string && (n =? slave_doc_pw pending v)%string
     | _, _ => false
     end.
 
@@ -156,6 +181,21 @@ Section Run.
     | 3, _ => match c_http c with Some z => meets 3 (expectation_no_header p) (OLevel z) | None => false end
     | 4, OBits a n v leak =>
         negb leak && (bit_spec p Admin =? a)%string && (bit_spec p Normal =? n)%string && (bit_spec p Viewonly =? v)%string
+    | 5, o =>
+        (* the hub signs what it sends to a slave with the hash of the slave's CURRENT admin password, at the current time;
+           the slave (same rules) then accepts it *)
+        (c_key c =? slave_pw (c_k c))%string
+        && issuedb mac sdec "consumer" (Some "admin") (sha_of sha (slave_pw (c_k c))) (spec_issue_time (c_now8 c)) (c_hdr c)
+        && meets 0 (relax (c_plain c)
+                          (expectation (sha_of sha) mac skew {| p_admin := Some (c_key c); p_normal := None; p_viewonly := None |}
+                                       (c_now8 c) (c_hdr c) (c_cand c) (c_sparsed c) "consumer" None)) o
+    | 6, o =>
+        (* the slave-events endpoint authenticates exactly the slave's current admin password *)
+        meets 2 (relax (c_plain c) (expectation (sha_of sha) mac skew p (c_now8 c) (c_hdr c) (c_cand c) (c_sparsed c) "device"
+                                                (Some (sha_of sha (slave_pw (c_k c)))))) o
+    | 7, OBits a n v leak =>
+        negb leak && is_bit a && is_bit n
+        && (if c_plain c then (a =? (if (c_key c =? "")%string then "" else "set"))%string else true)
     | _, _ => false
     end.
 
